@@ -46,6 +46,17 @@ def roundFrom (f : Follower) (readLi : Nat) (chunks : List (List Cmd)) : Followe
 /-- snapshot recovery: the content of the leader at the snapshot index, recorded with that index -/
 def recoverTo (L : LLog) (s : Nat) : Follower := ⟨leaderAt L s, s⟩
 
+/-- `Manager.reconcileTables` (replication/replication.go): follower tables the leader does not
+list are deleted, leader tables the follower does not have are created — matched by NAME -/
+def reconcileTables (leader follower : List String) : List String :=
+  let toDelete := follower.filter (fun f => !leader.contains f)
+  let toCreate := leader.filter (fun l => !follower.contains l)
+  follower.filter (fun f => !toDelete.contains f) ++ toCreate
+
+/-- `Manager.reconcileWorkers`: a worker for every table without one, none for tables that are gone -/
+def reconcileWorkers (tables workers : List String) : List String :=
+  workers.filter (fun w => tables.contains w) ++ tables.filter (fun t => !workers.contains t)
+
 /-- the invariant of C05 -/
 def Inv (L : LLog) (f : Follower) : Prop := f.kv = leaderAt L f.li ∧ f.li ≤ L.length
 
